@@ -363,7 +363,8 @@ func (c *ctx) round(class string, source uint64, height uint32, extra []byte, p 
 			r.Count("accepted_from:"+router, 1)
 			r.Count("accepted_to:"+c.t.name[to], 1)
 			r.Distinct("acc", config.DefConfig.Common.EnableEventLog, router, c.t.name[to], len(p.TxHash), len(p.CrossChainID), len(p.FromContractAddress), len(p.ToContractAddress), len(p.Method), len(p.Args))
-			if r.Get("accepted_imports") <= 3 && len(o.Rec.CrossHashes) == 1 {
+			if r.Get("samples_taken") < 3 && len(o.Rec.CrossHashes) == 1 {
+				r.Count("samples_taken", 1)
 				th := o.Rec.Tx.Hash()
 				r.Sample(map[string]interface{}{"source": source, "to": to, "relay_tx": kit.Hex(th.ToArray()), "added_keys": o.Touched(), "leaf": kit.Hex(o.Rec.CrossHashes[0][:])})
 			}
